@@ -461,9 +461,19 @@ int utimensat(int dirfd, const char *path, const struct timespec t[2], int flags
     LEAVE();
     return r;
 }
+/* sched: a call that consumes the server's standard input without read(2) (splice/sendfile/copy_file_range
+ * from fd 0) must ask the driver for input exactly as read(0) does, or it would block on an empty pipe. */
+static void sched_want_input_if_stdin(int in) {
+    if (g_mode == M_SCHED && !g_threaded && in == 0) {
+        char b[64];
+        sock_send("WANT_INPUT\n");
+        sock_wait(b, sizeof b);
+    }
+}
 ssize_t copy_file_range(int in, off64_t *oi, int out, off64_t *oo, size_t n, unsigned fl) {
     REAL(copy_file_range);
     ENTER();
+    if (active_) sched_want_input_if_stdin(in);
     FD_EVENT("copy_file_range", out, (long)n, 0, 1, 0);
     ssize_t r = real_copy_file_range(in, oi, out, oo, n, fl);
     if (active_ && rel_ && (g_mode == M_LOG || g_mode == M_INJECT) && r >= 0) {
@@ -498,6 +508,7 @@ ssize_t sendfile(int out, int in, off_t *off, size_t n) {
 ssize_t splice(int in, off64_t *oi, int out, off64_t *oo, size_t n, unsigned fl) {
     REAL(splice);
     ENTER();
+    if (active_) sched_want_input_if_stdin(in);
     FD_EVENT("splice", out, (long)n, 0, 1, 1);
     ssize_t r = real_splice(in, oi, out, oo, n, fl);
     FD_DONE("splice", r);
